@@ -516,6 +516,12 @@ func runC20(c *Ctx) {
 					if b, fl, ok := loadedField(name); ok && fl.Name() == "Name" {
 						name = b
 					}
+					// decl.Name.String(): the same string (an *ast.Ident prints as its name)
+					if sc, ok := name.(*ssa.Call); ok {
+						if cal := sc.Common().StaticCallee(); cal != nil && cal.Name() == "String" && cal.Pkg != nil && cal.Pkg.Pkg.Path() == "go/ast" && len(sc.Common().Args) == 1 {
+							name = sc.Common().Args[0]
+						}
+					}
 					va = []ssa.Value{inner.X, name}
 					haveParts = true
 				}
